@@ -44,6 +44,7 @@ def run(ctx):
     rng = ctx.rng
     quick = ctx.tier == 'quick'
     PC.tcp_option_correspondence(ctx, rng, 800 if quick else 12000, runner_ok)
+    PC.tlv_correspondence(ctx, rng, 600 if quick else 10000, runner_ok)
     # API-built packets and parsed (mutated) packets: serialize() must succeed with exactly size() bytes and no overwrite
     corp = PC.corpus(rng, 500 if quick else 6000)
     scripts = []
